@@ -16,7 +16,7 @@ type Cat implements Node { id: ID! lives: Int mice: [Int] name: Int barks: Boole
 union Pet = Dog | Cat
 union SearchResult = User | Dog | Cat
 enum Role { ADMIN USER GUEST }
-input Filter { q: String = "x", min: Int, roles: [Role!] = [USER], nested: Filter, req: Boolean!, ids: [ID] }
+input Filter { q: String = "x", min: Int, roles: [Role!] = [USER], nested: Filter, req: Boolean!, ids: [ID], lim: Int! = 10 }
 input Pick @oneOf { byId: ID, byName: String, byFilter: Filter }
 type Query { me: User node(id: ID!): Node named: [Named] search(term: String!, limit: Int = 3): [SearchResult!] nnMe: User!
   users: [User!] echo(i: Int, o: Filter, l: [Int!], nn: [Int!]! = [1]): String pets: [Pet]
